@@ -123,6 +123,70 @@ pub fn run(ctx: &mut Ctx) {
         }
     });
 
+    // ---------------------------------------------------------------- slow drift, then constant
+    // log-F0 creeps by a tiny step per frame over thousands of frames and is then held: the held
+    // stretch must have the pitch of the value that is held, not of where the creep started
+    let n = ctx.n(64, 1200);
+    ctx.run_cases("slow-drift", n, false, |ctx, rng, idx| {
+        let rate = RATES[idx % 6];
+        let fperiod = rng.range(20, 60);
+        let t_start = rng.uniform(40.0, 900.0f64.min(rate as f64 / 25.0));
+        let step = *rng.pick(&[8e-8, 9.9e-8, 5e-8, 2e-8, 1.5e-7, 1e-9, 3e-7]) * if rng.chance(0.5) { 1.0 } else { -1.0 };
+        let creep = if !ctx.quick() { rng.range(1500, 12000) } else { rng.range(1500, 4000) };
+        let held = ((12.0 * t_start / fperiod as f64).ceil() as usize).max(6) + 3;
+        let l0 = (rate as f64 / t_start).ln();
+        let mut lf0s: Vec<f64> = (0..creep).map(|k| l0 + step * k as f64).collect();
+        let last = *lf0s.last().unwrap();
+        lf0s.extend(std::iter::repeat(last).take(held));
+        let x = render(rate, fperiod, 0, &lf0s, &[]);
+        let t0 = rate as f64 / clampf0(last.exp());
+        let tail_from = (creep + 2) * fperiod;
+        let pos: Vec<usize> = pulse_positions(&x).into_iter().filter(|p| *p >= tail_from).collect();
+        let descr = |extra: J| {
+            J::obj()
+                .set("rate", rate)
+                .set("fperiod", fperiod)
+                .set("first_lf0", l0)
+                .set("step_per_frame", step)
+                .set("creeping_frames", creep)
+                .set("held_frames", held)
+                .set("T0_of_the_held_value", t0)
+                .set("T0_at_the_start", t_start)
+                .set("observed", extra)
+        };
+        if pos.len() < 3 {
+            ctx.violation("too-few-pulses", descr(J::obj().set("pulses", pos.len())));
+            return;
+        }
+        let h = t0.sqrt();
+        for p in &pos {
+            if (x[*p] - h).abs() > 1e-12 * h {
+                ctx.violation("held-pitch-after-slow-drift:pulse-height", descr(J::obj().set("height", x[*p]).set("expected", h).set("at", *p)));
+                return;
+            }
+        }
+        let (lo, hi) = ((t0 * (1.0 - 2.0 * f64::EPSILON)).floor() as usize, (t0 * (1.0 + 2.0 * f64::EPSILON)).ceil() as usize);
+        for w in pos.windows(2) {
+            let gap = w[1] - w[0];
+            if gap < lo || gap > hi {
+                ctx.violation("held-pitch-after-slow-drift:pulse-gap", descr(J::obj().set("gap", gap).set("at", w[0])));
+                return;
+            }
+        }
+        let npulse = (pos.len() - 1) as f64;
+        let avg = (pos[pos.len() - 1] - pos[0]) as f64 / npulse;
+        if (avg - t0).abs() > 1.0 / npulse + 1e-9 {
+            ctx.violation("held-pitch-after-slow-drift:average-period", descr(J::obj().set("average_gap", avg)));
+        }
+        ctx.count("held_stretches_after_a_slow_drift", 1.0);
+        ctx.count("pulses_measured", pos.len() as f64);
+        ctx.max("largest_total_drift_in_log_f0", (step * creep as f64).abs());
+        ctx.nontrivial(mix(&[7, rate as u64, fperiod as u64, creep as u64]));
+        if ctx.want_sample() {
+            ctx.sample(descr(J::obj().set("pulses", pos.len())));
+        }
+    });
+
     // ---------------------------------------------------------------- F0 limits (clamp)
     ctx.run_cases("clamp", 24, true, |ctx, _rng, idx| {
         let rate = RATES[idx % 6];
